@@ -132,18 +132,27 @@ def simulate (progT progR : List Seg) (choices : List Tid) : Option Sim :=
 
 inductive Pos where
   | before | after | torn
+  | prologue   -- before the tick took the lock, but after a part of the tick's unlocked prologue that had an effect
 deriving Repr, DecidableEq
 
 /-- Position of request `j` (1-based) in a trace relative to the tick's critical section: the indices of its effect
 segments against the indices of the tick's lock acquisition and of the tick's last segment. -/
-def classify (trace : List (Tid × Seg)) (j : Nat) : Pos :=
+def classify (trace : List (Tid × Seg)) (j : Nat) (readFails : Bool := false) : Pos :=
   let idx := trace.zipIdx
   let eff := (idx.filter (fun p => p.1.1 == .R && p.1.2.req == j && p.1.2.effect)).map (·.2)
   let tAcq := (idx.filter (fun p => p.1.1 == .T && p.1.2.acquires)).map (·.2)
   let tAll := (idx.filter (fun p => p.1.1 == .T)).map (·.2)
+  let tRead := (idx.filter (fun p => p.1.1 == .T && p.1.2.label == "hwl.read_batch")).map (·.2)
   match tAcq.head?, tAll.getLast? with
   | some a, some z =>
-    if eff.all (· < a) then .before else if eff.all (· > z) then .after else .torn
+    if eff.all (· < a) then
+      -- a failed hardware read puts the engine in its error state in the unlocked prologue: a request that runs
+      -- after it (and before the tick takes the lock) sees that effect; the model does not say which serial order
+      -- the outcome equals then (the commutation hypothesis of the theorem does not hold for this prologue)
+      match tRead.head? with
+      | some rd => if readFails && eff.any (· > rd) then .prologue else .before
+      | none => .before
+    else if eff.all (· > z) then .after else .torn
   | _, _ => if eff.isEmpty then .before else .torn
 
 /-! ## (2) The abstract machine over state transformers -/
